@@ -34,12 +34,15 @@ CFG = {
     "theory_files": ["gen/MarchTable.v", "theories/March/Grid.v", "theories/March/TableProps.v",
                      "theories/March/GridProofs.v", "theories/March/SurfaceProofs.v",
                      "theories/March/Closed.v", "theories/March/ClosedProofs.v",
-                     "theories/March/Blocks.v", "theories/March/BlocksProofs.v"],
+                     "theories/March/Blocks.v", "theories/March/BlocksProofs.v",
+                     "theories/March/VertexProofs.v", "theories/March/Canvas.v", "theories/March/CanvasProofs.v",
+                     "theories/March/Weld.v", "theories/March/WeldProofs.v"],
     "level_text": "Coq theorems about a sign-grid model of marchFloat1BlockPosition whose lookup tables are GENERATED from "
                   "table.go/canvas.go on every run: finite facts about all 256 cases (vm_compute) lifted by induction-free "
                   "counting to every sign grid of any extent (grid_closed: each directed edge at most once, reverse equally "
                   "often), no degenerate faces, orientation of the table, vertices on edges with a sign change, block index "
-                  "arithmetic; the model (incl. the final weld as a relabelling) is compared with the real canvas on every run "
+                  "arithmetic, blocks_cover / canvas_eq_grid / canvas_closed for a model of fieldBounds, chunkSectionsInRange and "
+                  "the block loop with its continues, weld_manifold for the repaired weld over Q; the model (incl. the final weld as a relabelling) is compared with the real canvas on every run "
                   "and the property is evaluated by a verified closedness test on the implementation's own triangles",
     "level_note": "Trusted: Coq kernel + vm_compute; tools/tab2coq (table translation); the hand-written cell loop of the model "
                   "tied by differential correspondence only; all floating point (field evaluation, interpolation, weld "
